@@ -672,6 +672,14 @@ type c14Input struct {
 	NDocs   int    `json:"ndocs"`
 }
 
+// safeNew builds and turns a panic into a value.
+func safeNew(b Batch, norm func(string, int) float32, cm uint32) (err error, panicked interface{}) {
+	return safely(func() error {
+		_, _, err := Current.New(b.Documents(), norm, cm)
+		return err
+	})
+}
+
 func specialC14(seed int64, thorough bool) *Special {
 	sp := &Special{Extra: map[string]interface{}{}}
 	g := NewGen(seed*15485863 + 14)
@@ -701,7 +709,9 @@ func specialC14(seed int64, thorough bool) *Special {
 				hcm := g.ChunkMode()
 				if g.R.Intn(6) == 0 {
 					// a failed build: an unknown chunk mode makes convert return an error
-					if _, _, err := Current.New(hb.Documents(), HarnessNorm, 5000); err != nil {
+					if err, pan := safeNew(hb, HarnessNorm, 5000); pan != nil {
+						sp.failf(c14Input{Seed: seed, Target: t, History: hist + fmt.Sprintf("err(%d)", len(hb)), CM: 5000, NDocs: len(hb)}, "a build with an unknown chunk mode panicked after the history: %v", pan)
+					} else if err != nil {
 						failedBuilds++
 						hist += fmt.Sprintf("err(%d)", len(hb))
 						continue
@@ -726,8 +736,9 @@ func specialC14(seed int64, thorough bool) *Special {
 						hist += fmt.Sprintf("fail(%d)", len(hb))
 						continue
 					}
-				} else if _, _, err := Current.New(hb.Documents(), HarnessNorm, hcm); err != nil {
-					sp.failf(nil, "history build failed: %v", err)
+				} else if err, pan := safeNew(hb, HarnessNorm, hcm); err != nil || pan != nil {
+					sp.failf(c14Input{Seed: seed, Target: t, History: hist + fmt.Sprintf("b(%d,%d)", len(hb), hcm), CM: hcm, NDocs: len(hb)},
+						"a build of a valid batch failed after the history (the same batch builds from a cold pool): err=%v panic=%v", err, pan)
 				}
 				hist += fmt.Sprintf("b(%d,%d)", len(hb), hcm)
 			}
